@@ -33,7 +33,7 @@ var subOf = map[string][]string{
 	"10.1.2.0/24":     {"10.1.2.3/32", "10.1.2.0/25", "10.1.2.128/25"},
 	"172.16.0.0/12":   {"172.16.0.0/16", "172.31.255.255/32"},
 }
-var allKinds = []string{"Deployment", "Pod", "StatefulSet", "DaemonSet", "ReplicaSet", "Job", "CronJob", "ReplicationController", "Owned:ReplicaSet", "Owned:StatefulSet", "Owned2:ReplicaSet"}
+var allKinds = []string{"Deployment", "Pod", "StatefulSet", "DaemonSet", "ReplicaSet", "Job", "CronJob", "ReplicationController", "Owned:ReplicaSet", "Owned:StatefulSet", "Owned2:ReplicaSet", "Owned:TaskRun"}
 
 // GenCfg selects the sub-generator ("NP-only world", "admin world", ...).
 type GenCfg struct {
@@ -302,6 +302,9 @@ func genWorkload(t *rapid.T, l string, ns string, cfg *GenCfg) Workload {
 		wl.Ports = append(wl.Ports, cp)
 	}
 	wl.SplitContainers = np >= 2 && rapid.IntRange(0, 3).Draw(t, l+"split") == 0
+	if isOwned(wl.Kind) && wl.Replicas >= 2 && rapid.IntRange(0, 2).Draw(t, l+"mixedapi") == 0 {
+		wl.MixedOwnerAPI = true
+	}
 	if np >= 2 && rapid.IntRange(0, 5).Draw(t, l+"ncont") == 0 {
 		// three or four containers (some may end up without ports)
 		wl.NCont = rapid.IntRange(3, 4).Draw(t, l+"ncontn")
